@@ -332,6 +332,8 @@ impl<'a, R> BroadcastFuture<'a, R> {
         shared: &'a mut Shared<R>,
         futures: Vec<RecycledFuture<'a, Result<R, SendError>>>,
     ) -> Self {
+        #[cfg(nexosim_verif)]
+        crate::verif::probe(crate::verif::Probe::BroadcastSlowPath);
         let pending_futures_count = futures.len();
         shared.task_set.resize(pending_futures_count);
 
